@@ -86,7 +86,7 @@ class Interp:
         self.unmodelled = set()
         self.ref_syms = ["CS0", "MS0", "G0", "N0"]   # entry-state symbols: always coordinates of joins
         self._splice_cache = {}
-        self.block_budget = 60000
+        self.block_budget = 30000
         self.stats = {"blocks": 0, "calls_inlined": 0, "joins": 0, "entail": 0, "states": 0}
         self.variant_names = dict(ENUM_VARIANTS)
         for n, a in self.f.adts.items():
@@ -476,6 +476,12 @@ class Interp:
         tgt_obj = st.store.get(oid) if len(path) == 1 else self.load(st, oid, path[:-1])
         if tgt_obj is None or tgt_obj[0] != "struct":
             return
+        rawv = val[2].get(self.r.EPTR_RAW) if (val[0] == "struct" and val[1] == self.r.eptr) else None
+        if rawv is not None and rawv[0] == "ptr":
+            try:
+                self.gdel(st, "unlinked", self.resolve_ptr(st, rawv)[0])
+            except Unsupported:
+                pass
         installed = self.cache_tids(st)
         owner_is_cache = tgt_obj[2].get("#seal_of") is not None or (tgt_obj[2].get("#tid") in installed and tgt_obj[2].get("#tid") is not None)
         if not owner_is_cache:
@@ -736,7 +742,7 @@ class Frame:
             work.sort(key=lambda b: self.rpo_idx.get(b, 1 << 30))
             bb = work.pop(0)
             visits[bb] = visits.get(bb, 0) + 1
-            if visits[bb] > 14:
+            if visits[bb] > 9:
                 raise Unsupported("no fixpoint in %s bb%d" % (self.body.path, bb))
             states = ins.get(bb, [])
             out_edges = []
@@ -1175,8 +1181,13 @@ class Joiner:
                 if oid[1] == "promoted":
                     if not (vo <= nv):
                         return False
-                elif not (nv <= vo):
-                    return False
+                else:
+                    for x in nv:
+                        if x in vo:
+                            continue
+                        if not (isinstance(x, str) or (isinstance(x, tuple) and x and x[0] == "tid")) and "*" in vo:
+                            continue
+                        return False
                 continue
             if oid[0] not in ("L", "O", "R"):
                 continue      # heap objects are compared through the pointers that reach them
@@ -1320,7 +1331,14 @@ class Joiner:
         for gk in gkeys:
             va = frozenset(ren_a.get(x, x) for x in a.store.get(gk, frozenset()))
             vb = frozenset(ren_b.get(x, x) for x in b.store.get(gk, frozenset()))
-            out.store[gk] = (va & vb) if gk[1] == "promoted" else (va | vb)
+            if gk[1] == "promoted":
+                out.store[gk] = va & vb
+            else:
+                both = va & vb
+                one = (va | vb) - both
+                # object ids known on one side only are summarised ("some entry"): keeps loops convergent, stays a may-set
+                summ = frozenset(x if (isinstance(x, str) or (isinstance(x, tuple) and x and x[0] == "tid")) else "*" for x in one)
+                out.store[gk] = both | summ
         for fk in [k for k in a.store if k[0] == "F" and k in b.store]:
             va, vb = a.store[fk], b.store[fk]
             if va != vb and ren_a.get(va) is not None and ren_a.get(va) == ren_b.get(vb):
